@@ -1,7 +1,7 @@
 (* C05 proofs, part 5: invariants of whole histories, by induction over the call list. *)
 From Coq Require Import ZArith List Bool Arith Lia Permutation.
 From VF Require Import Circ.Moments Circ.Placement Circ.Insert Circ.BatchEdit Circ.History
-  Circ.MomentsProofs Circ.InsertProofs Circ.PlacementProofs Circ.CacheProofs Circ.BatchProofs Circ.OrderProofs Circ.TotalProofs.
+  Circ.MomentsProofs Circ.InsertProofs Circ.PlacementProofs Circ.CacheProofs Circ.BatchProofs Circ.OrderProofs Circ.TotalProofs Circ.EquivProofs.
 Import ListNotations.
 Open Scope Z_scope.
 
@@ -88,9 +88,9 @@ Proof.
   eapply insert_cache_ok; [|exact H]. apply none_cache_ok.
 Qed.
 
-Lemma step_cache_ok c x : cache_ok c -> not_with_tags x -> cache_ok (fst (step c x)).
+Lemma step_cache_ok c x : cache_ok c -> cache_ok (fst (step c x)).
 Proof.
-  intros Hc Hx. destruct x; simpl in Hx; try contradiction; unfold step;
+  intros Hc. destruct x; unfold step;
     try (apply cached_cache_ok; exact Hc); try exact Hc; try (apply none_cache_ok).
   - apply empty_cache_ok.
   - apply replace_with_inv; [exact Hc|]. intros c' z E. eapply construct_cache_ok; exact E.
@@ -130,13 +130,13 @@ Proof.
     destruct (py_index _ _); injection E as <- _; [apply none_cache_ok|exact Hc].
 Qed.
 
-Theorem run_cache_ok h : forall c, cache_ok c -> Forall not_with_tags h -> cache_ok (run c h).
+Theorem run_cache_ok h : forall c, cache_ok c -> cache_ok (run c h).
 Proof.
-  induction h as [|x r IH]; intros c Hc Hh; simpl; [exact Hc|].
-  inversion Hh; subst. apply IH; [apply step_cache_ok; assumption|assumption].
+  induction h as [|x r IH]; intros c Hc; simpl; [exact Hc|].
+  apply IH. apply step_cache_ok. exact Hc.
 Qed.
 
-Theorem history_cache_ok h : Forall not_with_tags h -> cache_ok (run empty_circuit h).
+Theorem history_cache_ok h : cache_ok (run empty_circuit h).
 Proof. apply run_cache_ok. apply empty_cache_ok. Qed.
 
 (* ==== D6: lazily cached summaries are valid (every mutator clears them) ==== *)
@@ -264,27 +264,8 @@ Qed.
 (* ==== the defects, as refuted statements with their witnesses (replayed on the implementation by the check) ==== *)
 Definition wX (u q : Z) : opd := mkop u [q] [] [] [] true.
 
-(* with_tags leaves an empty cache next to non-empty moments *)
-Theorem with_tags_cache_refuted :
-  exists h, Forall call_wf h /\ ~ cache_ok (run empty_circuit h).
-Proof.
-  exists [CNew [IMom [wX 1 0]] EARLIEST; CWithTags]. split.
-  - repeat constructor; simpl; tauto.
-  - intros H. specialize (H empty_cache eq_refl). destruct H as [H _]. simpl in H. discriminate.
-Qed.
-
-(* ... so an appended Moment does not end up last *)
-Theorem with_tags_append_refuted :
-  exists h m, Forall call_wf (h ++ [CAppend [IMom m] EARLIEST]) /\
-              moms (run empty_circuit (h ++ [CAppend [IMom m] EARLIEST])) <> moms (run empty_circuit h) ++ [m].
-Proof.
-  exists [CNew [IMom [wX 1 0]] EARLIEST; CWithTags], [wX 2 0]. split.
-  - repeat constructor; simpl; tauto.
-  - vm_compute. discriminate.
-Qed.
-
-(* the other three defects of /repo (known findings order:concat, order:binsert, order:frontier): the
-   faithful model reproduces them, so the order clause is kept refuted for these calls *)
+(* the two open defects of /repo (known findings order:concat, order:frontier): the faithful model
+   reproduces them, so the order clause is kept refuted for these calls *)
 Definition wM (u q k : Z) : opd := mkop u [q] [k] [] [] false.        (* measurement of q into key k *)
 Definition wC (u q k : Z) : opd := mkop u [q] [] [k] [] false.        (* operation on q controlled by key k *)
 
@@ -298,14 +279,12 @@ Proof.
   - repeat split; reflexivity.
 Qed.
 
-Theorem batch_insert_order_refuted :
-  exists c ins c', batch_insert c ins = (c', inl 0) /\
-    ins = [(0, [IOp (wX 4 1)]); (2, [IOp (wX 5 2)])] /\ conflicts (wX 3 2) (wX 5 2) = true /\
-    uid_moms (moms c) = [[1]; [2]; [3]] /\ uid_moms (moms c') = [[1; 4]; [2]; [3]; [5]].
-Proof.
-  exists (from_moments [[wX 1 0]; [wX 2 1]; [wX 3 2]]), [(0, [IOp (wX 4 1)]); (2, [IOp (wX 5 2)])]. eexists.
-  split; [vm_compute; reflexivity|]. repeat split; reflexivity.
-Qed.
+(* batch_insert after the repair (shift = number of moments actually created): the operation inserted at
+   index 2 stays in front of the conflicting operation that was at index 2 *)
+Example batch_insert_repaired_example :
+  exists c', batch_insert (from_moments [[wX 1 0]; [wX 2 1]; [wX 3 2]]) [(0, [IOp (wX 4 1)]); (2, [IOp (wX 5 2)])] = (c', inl 0) /\
+    uid_moms (moms c') = [[1; 4; 5]; [2]; [3]].
+Proof. eexists. split; vm_compute; reflexivity. Qed.
 
 Theorem insert_at_frontier_order_refuted :
   exists its c' f, insert_at_frontier empty_circuit its 0 [] = (c', inl f) /\
@@ -316,7 +295,7 @@ Proof.
   split; [vm_compute; reflexivity|]. repeat split; reflexivity.
 Qed.
 
-(* ==== no exception escapes insert half-way in a history without with_tags: D6 holds unconditionally there ==== *)
+(* ==== no exception escapes insert half-way, in any history: D6 holds unconditionally ==== *)
 Lemma raised_midway_false c x : cache_ok c -> raised_midway c x = false.
 Proof.
   intros Hc. destruct x; try reflexivity; cbn [raised_midway].
@@ -333,19 +312,40 @@ Proof.
     reflexivity.
 Qed.
 
-Theorem clean_without_with_tags h : forall c, cache_ok c -> Forall not_with_tags h -> clean c h.
+Theorem clean_always h : forall c, cache_ok c -> clean c h.
 Proof.
-  induction h as [|x r IH]; intros c Hc Hh; simpl; [exact I|].
-  inversion Hh; subst. split; [apply raised_midway_false; exact Hc|].
-  apply IH; [apply step_cache_ok; assumption|assumption].
+  induction h as [|x r IH]; intros c Hc; simpl; [exact I|].
+  split; [apply raised_midway_false; exact Hc|]. apply IH. apply step_cache_ok. exact Hc.
 Qed.
 
-Theorem history_sums_ok_unconditional h : Forall not_with_tags h -> sums_ok (run empty_circuit h).
+Theorem history_sums_ok_unconditional h : sums_ok (run empty_circuit h).
+Proof. apply history_sums_ok. apply clean_always. apply empty_cache_ok. Qed.
+
+(* and no insert / append call raises after any history *)
+Theorem history_insert_never_raises h i its s : exists c' z, insert (run empty_circuit h) i its s = (c', inl z).
+Proof. apply insert_total. apply history_cache_ok. Qed.
+
+(* after any history (with_tags included) an appended Moment ends up last *)
+Lemma run_app h1 : forall c h2, run c (h1 ++ h2) = run (run c h1) h2.
+Proof. induction h1 as [|x r IH]; intros c h2; simpl; [reflexivity|apply IH]. Qed.
+
+Lemma append_moment_last c m : cache_ok c -> moms (fst (append c [IMom m] EARLIEST)) = moms c ++ [m].
 Proof.
-  intros Hh. apply history_sums_ok. apply clean_without_with_tags; [apply empty_cache_ok|exact Hh].
+  intros Hok.
+  assert (Hu : forall c0, cache c0 = None -> moms (fst (append c0 [IMom m] EARLIEST)) = moms c0 ++ [m]).
+  { intros c0 Hc0. unfold append. rewrite insert_single_unfold by (try discriminate; intros _; exact Hc0).
+    replace (clamp_index (Z.of_nat (length (moms c0))) (length (moms c0))) with (length (moms c0))
+      by (unfold clamp_index; destruct (0 <=? Z.of_nat (length (moms c0))) eqn:E; lia).
+    unfold do_batch, needs_blank. cbn [i_cache i_ms i_k i_s i_maxp place_items]. unfold place_item, determine.
+    cbn [i_cache i_ms i_k i_s i_maxp]. unfold place. cbn [fst moms mutated i_ms]. apply insert_at_length. }
+  destruct (cache c) as [pc|] eqn:Ec; [|apply Hu; exact Ec].
+  rewrite (cached_append_eq_uncached c [IMom m] pc Ec (Hok pc Ec)). apply (Hu (mkc (moms c) None (sm c))). reflexivity.
 Qed.
 
-(* and no modelled insert / append call of such a history raises *)
-Theorem history_insert_never_raises h i its s :
-  Forall not_with_tags h -> exists c' z, insert (run empty_circuit h) i its s = (c', inl z).
-Proof. intros Hh. apply insert_total. apply history_cache_ok. exact Hh. Qed.
+Theorem history_append_moment_last h m :
+  moms (run empty_circuit (h ++ [CAppend [IMom m] EARLIEST])) = moms (run empty_circuit h) ++ [m].
+Proof.
+  rewrite run_app. cbn [run step].
+  pose proof (append_moment_last (run empty_circuit h) m (history_cache_ok h)) as H.
+  destruct (append (run empty_circuit h) [IMom m] EARLIEST) as [c' r] eqn:E. cbn [fst] in *. exact H.
+Qed.
